@@ -146,3 +146,57 @@ def f16_non_ascii_zone(rec, args):
     zone = m.group(2) if m.group(2) is not None else m.group(3)
     rest = s.replace(zone, "")
     return (not zone.isascii()) and rest.isascii()
+
+
+_F7A_FIELDS = {"authority", "raw_host", "host", "host_subcomponent", "host_port_subcomponent", "human_repr"}
+
+
+def _diff_map(rec):
+    obs = rec.get("observed") or {}
+    d = obs.get("diff") if isinstance(obs, dict) else None
+    if not isinstance(d, list):
+        return None
+    try:
+        return {n: (tuple(a), tuple(b)) for n, a, b in d}
+    except Exception:
+        return None
+
+
+@predicate
+def f7a_empty_host_eager_lazy(rec, args):
+    """as-produced object says raw_host '' and the cache-free twin says None; every other difference is a host-derived accessor."""
+    m = _diff_map(rec)
+    if not m or m.get("raw_host") != (("ok", ""), ("ok", None)):
+        return False
+    return set(m) <= _F7A_FIELDS
+
+
+@predicate
+def f20_bracket_garbage_eager_lazy(rec, args):
+    """(a) constructor input whose authority has brackets that do not enclose a valid IPv6 literal (out of the RFC domain:
+    mis-nested brackets, garbage or IPvFuture content), or (b) an as-produced raw_host containing ':' that is not IPv6."""
+    from vlib.ref import hostref
+    from vlib.ref import rfc3986 as R
+    if rec.get("case") == "ctor" and len(args) >= 2 and isinstance(args[0], str) and isinstance(args[1], str):
+        auth = R.split(R.preprocess(args[0] + args[1]))[1]
+        if auth and ("[" in auth or "]" in auth):
+            hp = auth.rsplit("@", 1)[-1]
+            inner_ok = False
+            if hp.startswith("[") and "]" in hp:
+                inner = hp[1:hp.find("]")]
+                addr = inner.partition("%")[0]
+                try:
+                    import ipaddress
+                    ipaddress.IPv6Address(addr)
+                    inner_ok = "[" not in hp[1:] and "]" not in hp[hp.find("]") + 1:] and "[" not in auth.rsplit("@", 1)[0] if "@" in auth else True
+                except ValueError:
+                    inner_ok = False
+            return not inner_ok
+        return False
+    m = _diff_map(rec)
+    if not m or "raw_host" not in m:
+        return False
+    a, b = m["raw_host"]
+    if a[0] != "ok" or not isinstance(a[1], str) or ":" not in a[1]:
+        return False
+    return hostref.classify(a[1]) in (None, "ipvfuture")
